@@ -5,6 +5,7 @@
 # "accepted => canonical re-encoding equals the input" and "formatted text equals python's" explicitly.
 import framework
 from framework import Check, Case
+from props import edref as ed        # only for addr_of_keys (scalar multiplication of the base point)
 
 # ------------------------------------------------------------------ Keccak-256 (pure python)
 _RC = [0x0000000000000001, 0x0000000000008082, 0x800000000000808A, 0x8000000080008000, 0x000000000000808B,
@@ -243,7 +244,18 @@ def expected(line):
         net, t, spend, view = w[1], w[2], unhx(w[3]), unhx(w[4])
         kind, pid = (("int", bytes.fromhex(t[4:])) if t.startswith("int:") else (t, b""))
         b = blob_of(net, kind, pid, spend, view)
-        return "OK %s %s %s %s" % (b.hex(), b58_enc(b).hex(), b.hex().encode().hex(), (leb128(len(b)) + b).hex())
+        disp = {"std": b"Standard address", "sub": b"Subaddress", "int": b"Integrated address"}[kind]
+        # blob, text, as_hex, consensus bytes, ToHex::encode_hex, ToHex::encode_hex_upper, Display of the AddressType
+        return "OK %s %s %s %s %s %s %s" % (b.hex(), b58_enc(b).hex(), b.hex().encode().hex(), (leb128(len(b)) + b).hex(),
+                                            b.hex().encode().hex(), b.hex().upper().encode().hex(), disp.hex())
+    if op == "addr_of_keys":
+        # from_keypair / from_viewpair: the standard address of (spend*G, view*G), independent python Ed25519
+        v, s = unhx(w[2]), unhx(w[3])
+        if not all(len(k) == 32 and int.from_bytes(k, "little") < ed.L for k in (v, s)):
+            return "ERR"
+        pub = lambda k: ed.compress(ed.mul(int.from_bytes(k, "little"), ed.B))
+        t = b58_enc(blob_of(w[1], "std", b"", pub(s), pub(v))).hex()
+        return "OK %s %s" % (t, t)
     return None
 
 
@@ -285,14 +297,16 @@ SPECIAL_KEYS = [
 class C12(Check):
     pid = "C12"
     rule = ("addresses: 9 (network,type) combinations x valid key pairs (keys of the repository tests, boundary point "
-            "encodings, seeded random valid encodings) formatted (addr_fmt) and parsed back in blob, base58, hex and consensus "
+            "encodings, seeded random valid encodings) built by the constructor of the type and formatted (addr_fmt: blob, text, "
+            "as_hex, consensus, ToHex lower/upper, type name) and parsed back in blob, base58, hex and consensus "
             "form; every blob byte position x {+1, xor 0x80, 0x00, 0xff} with the old and with a recomputed checksum; all 256 "
             "tags at both lengths with a correct checksum; truncation to every length 0..80 and extension by 1..16 bytes (plain "
             "and with the checksum recomputed at the new end); non-canonical / off-curve keys under a correct checksum; base58: "
             "every character position x {next alphabet character, 0, O, I, l, two-byte UTF-8}, block overflow, values 256^n-1 "
             "and 256^n in every tail width, illegal lengths, empty string, random byte strings of length 0..100 and random "
             "alphabet strings; hex: upper/mixed case, 0x / 0X / double prefix, odd length, bad digit; consensus: non-minimal "
-            "or wrong length prefix, trailing byte, oversized length.  non-trivial = distinct case line")
+            "or wrong length prefix, trailing byte, oversized length; addr_of_keys: from_keypair/from_viewpair on boundary and "
+            "random secret keys, refused scalars.  non-trivial = distinct case line")
     level_note = ("theorems are about the Gallina models Model/Base58.v and Model/Address.v, for every hash function with "
                   "32-byte output and every key-acceptance predicate that implies length 32; the tie to "
                   "src/util/address.rs + base58-monero 2.1.0 is the correspondence check with H = Keccak-256 model and "
@@ -349,6 +363,18 @@ class C12(Check):
                 b = blob_of(net, kind, pid, s, v)
                 all_forms(b, "roundtrip")
                 blobs.append(b)
+        # constructors from secret keys: from_keypair and from_viewpair (the doc-test key pair of src/util/key.rs first)
+        add("addr_of_keys main 8163466f1883598e6dd14027b8da727057165da91485834314f5500a65846f09 "
+            "77916d0cd56ed1920aef6ca56d8a41bac915b68e4c46a589e0956e27a7b77404", "from-keys")
+        sks = [0, 1, 2, ed.L - 1, ed.L - 2, 2 ** 252]
+        for j in range(30 if not thorough else 300):
+            v_, s_ = (sks[j % 6], sks[(j // 6) % 6]) if j < 12 else (rng.randrange(ed.L), rng.randrange(ed.L))
+            add("addr_of_keys %s %s %s" % (("main", "test", "stage")[j % 3], v_.to_bytes(32, "little").hex(),
+                                           s_.to_bytes(32, "little").hex()), "from-keys")
+        for bad in (ed.L, ed.L + 1, 2 ** 256 - 1):
+            add("addr_of_keys main %s %s" % (bad.to_bytes(32, "little").hex(), (1).to_bytes(32, "little").hex()), "from-keys-rejected")
+            add("addr_of_keys test %s %s" % ((1).to_bytes(32, "little").hex(), bad.to_bytes(32, "little").hex()), "from-keys-rejected")
+        add("addr_of_keys main %s %s" % ("01" * 31, "01" * 32), "from-keys-rejected")
         # formatting is defined for any 32-byte field content (PublicKey has a public field)
         for k in invalid[:6]:
             add("addr_fmt main std %s %s" % (k.hex(), valid[0].hex()), "format-unchecked-key")
@@ -469,7 +495,7 @@ class C12(Check):
         c = case.line.split(" ")
         op = c[0]
         # the two statements of the property, checked on what the implementation returned
-        if w[0] == "OK" and op.startswith("addr_") and op != "addr_fmt":
+        if w[0] == "OK" and op.startswith("addr_") and op not in ("addr_fmt", "addr_of_keys"):
             canon, text = unhx(w[5]), unhx(w[6])
             arg = unhx(c[1])
             if op == "addr_from_bytes" and canon != arg:
@@ -512,8 +538,13 @@ class C12(Check):
         if not cases or not model:
             return {}
         cheap, costly = [], []
+        named = []       # addr_of_keys costs two scalar multiplications (~25 s each in vm_compute): only the first one
         for i, c in enumerate(cases):
             op = c.line.split(" ")[0]
+            if op == "addr_of_keys":
+                if not named:
+                    named.append(i)
+                continue
             if op in ("b58_enc", "b58_dec", "addr_fmt"):
                 cheap.append(i)
             else:
@@ -532,7 +563,7 @@ class C12(Check):
         r = random.Random(len(cases))
         r.shuffle(cheap)
         r.shuffle(costly)
-        cheap, costly = sorted(cheap[:600]), sorted(costly[:8])
+        cheap, costly = sorted(cheap[:600]), sorted(costly[:8] + named)
         bad = framework.run_evalA([(cases[i].line, model[i]) for i in cheap], "C12-cheap", shard=60)
         if bad:
             raise framework.Infra("evaluators A and B disagree on %r" % cases[cheap[bad[0]]].line[:300])
